@@ -307,6 +307,7 @@ def curated_shapes(conv):
                {"per": 1, "comments": "all", "order": "last", "zero": "own", "shuffle": 1, "blank": 1,
                 "decoy": 1, "exit": 0},
                {"shuffle": 1, "per": 3, "zero": "absent"}]
+    ans += [{"stderr": 1}, {"stderr": 2, "per": 2}]
     out = [dict(s, kind="answer") for s in ans]
     out += [{"kind": "unknown"}, {"kind": "unknown", "word": "INDETERMINATE"}, {"kind": "noanswer"},
             {"kind": "silent", "exit": 1}, {"kind": "silent", "exit": 0}, {"kind": "silent", "exit": 137},
@@ -332,6 +333,8 @@ def random_shape(r, conv, allow_garbage=True):
             sh["order"] = r.choice(("first", "first", "last"))
             sh["blank"] = r.choice((0, 0, 1))
             sh["decoy"] = r.choice((0, 0, 1))
+        if r.random() < 0.3:
+            sh["stderr"] = r.choice((1, 2))
         return sh
     if x < 0.86:
         k = r.choice(("unknown", "noanswer", "silent", "early"))
@@ -472,6 +475,8 @@ def bridge(ctx, bench, fm, method, cmd, sameas, verbose, sh, usable, convmap=Non
     kw = {"cmd": cmd, "sameas": sameas}
     if method == "solve" and verbose is not None:
         kw["verbose"] = verbose
+        if verbose >= 2 and sh.get("stderr") and exp[0] == "run":
+            ctx.count("solver_stderr_chatter_while_verbose")
     L = _LEDGER
     L["created"], L["removed"], L["root"] = [], [], bench.tmp
     old_err = sys.stderr
@@ -766,10 +771,12 @@ def case_curated(ctx, name, form, light=False):
                 method = "solve" if (i % 3) else "is_satisfiable"
                 if sh["kind"] == "answer" and fm.models and method != "solve" and fm.n <= 1:
                     method = "solve"
+                if "stderr" in sh:
+                    method = "solve"
                 i += 1
                 fm.count(ctx)
-                bridge(ctx, bench, fm, method, cmd, sameas, (None, 0, 1, 2)[i % 4], sh, usable, cm, seed=i,
-                       tag="curated", what=what)
+                bridge(ctx, bench, fm, method, cmd, sameas, 2 if "stderr" in sh else (None, 0, 1, 2)[i % 4], sh,
+                       usable, cm, seed=i, tag="curated", what=what)
 
 
 def case_random(ctx, name, form, batch, count, maxn):
